@@ -541,7 +541,7 @@ def run(tier, procs=None, only=None):
 
 
 # every real-library oracle of this property (each returns (reproduced, detail)); used to confirm structural facts that carry no replay of their own
-ALL_REPLAYS = [lambda c: replay_blocksum((3, 2, 5), 2)(c), lambda c: _replay_region(2)(c), lambda c: _replay_region(3)(c), lambda c: _replay_region_batch(2)(c)]
+ALL_REPLAYS = [lambda c: replay_blocksum((3, 2, 5), 2)(c), lambda c: _replay_region(2)(c), lambda c: _replay_region(3)(c), lambda c: _replay_region_batch(2)(c), lambda c: _replay_region_batch(2, True, ('numpy', 'dask'))(c), lambda c: _replay_region_batch(2, True, ('dask', 'numpy'))(c), lambda c: _replay_region_batch(3, True)(c)]
 
 
 def replay(data):
